@@ -6,10 +6,13 @@
 
    Gates are a finite map (association list keyed by the gate id) to two
    optional slots.  A slot holds (peer gate, slot index used on the peer,
-   channel?).  A channel is represented by its latency in ns: the harness
-   builds channels with bitrate 0 and jitter 0, for which
-   ChannelMetrics::calculate_duration = latency and calculate_busy = 0, so a
-   channel never becomes busy and messages do not interact.
+   channel?).  A channel is (latency, bitrate), jitter 0.  Each direction of a
+   hop has its own Channel instance (Gate::connect dups it).  Messages are
+   treated independently: every hop delays by the idle-channel duration
+   tx(len) + latency.  That is the code's behaviour as long as no message meets
+   a busy channel, i.e. as long as the traffic of ONE direction of a hop does
+   not overlap in time (busy / drop / queue is C07's subject); opposite
+   directions may overlap freely.
 
    std::sync::Mutex poisoning is modelled because it is observable once the
    documented panics of connect are caught: the assert "gates allready connected
@@ -27,7 +30,17 @@ Definition opp (i : sid) : sid := match i with S0 => S1 | S1 => S0 end.
 Definition sid_eqb (i j : sid) : bool :=
   match i, j with S0, S0 => true | S1, S1 => true | _, _ => false end.
 
-Record conn := { endpoint : N; endpoint_id : sid; channel : option N }.
+(* a channel: (latency ns, bitrate bit/s); jitter 0, bitrate 0 = unlimited *)
+Definition chan := (N * N)%type.
+(* every message of a script is 72 bytes long (64 header + u64 content) *)
+Definition MSG_BITS : N := 576.
+(* ChannelMetrics::calculate_busy: len*8/bitrate seconds; scripts only use bitrates
+   for which this is a whole number of ns (see [norm_br]) *)
+Definition tx (br : N) : N := if br =? 0 then 0 else (MSG_BITS * 1000000000) / br.
+(* ChannelMetrics::calculate_duration of an idle channel, jitter 0: latency + transmission time *)
+Definition hop_delay (c : chan) : N := tx (snd c) + fst c.
+
+Record conn := { endpoint : N; endpoint_id : sid; channel : option chan }.
 Record gate := { owner : N; c0 : option conn; c1 : option conn }.
 Definition gates := list (N * gate).
 
@@ -104,7 +117,7 @@ Inductive out :=
                 5 = poisoned lock in connect *)
 
 (* Gate::connect(self = a, other = b, channel) *)
-Definition connect (s : state) (a b : N) (ch : option N) : state * out :=
+Definition connect (s : state) (a b : N) (ch : option chan) : state * out :=
   match lookup (sgates s) a, lookup (sgates s) b with
   | Some ga, Some gb =>
       if a =? b then (s, OPanic 1)                               (* assert!(!Arc::ptr_eq(..)) *)
@@ -161,7 +174,7 @@ Fixpoint handle_with_sink (fuel : nat) (gs : gates) (cur : conn) (now last : N) 
       | Some next =>
           (* msg.header.last_gate = Some(next.endpoint) *)
           match channel next with
-          | Some lat => handle_with_sink f gs next (now + lat) (endpoint next)  (* ch.send_message(msg, next, sink) *)
+          | Some ch => handle_with_sink f gs next (now + hop_delay ch) (endpoint next)  (* ch.send_message(msg, next, sink): idle channel *)
           | None => handle_with_sink f gs next now (endpoint next)              (* cur = next *)
           end
       | None => Some (owner_of gs (endpoint cur), now, last)                     (* HandleMessageEvent at SimTime::now() *)
@@ -228,7 +241,7 @@ Fixpoint legs (budget : nat) (gs : gates) (rules : list rule) (h : header) (cur 
 
 (* ---- scripts ---- *)
 Inductive op :=
-| Connect (a b : N) (ch : option N)
+| Connect (a b : N) (ch : option chan)
 | Kind (g : N) | NextGate (g : N) | PathEnd (g : N) | PathIter (g : N)
 | Send (g t d b : N)          (* b = relay budget *)
 | Relay (g g' d : N).
@@ -328,7 +341,8 @@ Definition init (owners : list N) : state := {| sgates := mk_gates 0 owners; poi
 
 (* ---- wire format ---- *)
 (* script: nmod L (owner size){L/2} op*
-     op = 1 a b l   connect(a, b, channel: l = 0 none, else latency l-1 ns)
+     op = 1 a b l   connect(a, b, channel: l = 0 none, else latency l-1 ns, bitrate 0)
+        | 9 a b l br  as 1, with bitrate br bit/s
         | 2 g kind | 3 g next_gate | 4 g path_end | 5 g path_iter
         | 6 g t d   at time t the owner of g calls send_at(msg, g, t+d)
         | 7 g g' d  forwarding rule: a message received through g is sent on, as the same object, on g' after d ns
@@ -341,11 +355,15 @@ Fixpoint groups (nm : N) (l : list N) : list N :=
   | _ => []
   end.
 
-Definition dec_ch (l : N) : option N := if l =? 0 then None else Some (l - 1).
+(* bitrates whose transmission time for MSG_BITS is not a whole number of ns are read as 0 *)
+Definition norm_br (br : N) : N :=
+  if br =? 0 then 0 else if (MSG_BITS * 1000000000) mod br =? 0 then br else 0.
+Definition dec_ch (l br : N) : option chan := if l =? 0 then None else Some (l - 1, norm_br br).
 
 Definition dec_op (l : list N) : option (op * list N) :=
   match l with
-  | 1 :: a :: b :: c :: r => Some (Connect a b (dec_ch c), r)
+  | 1 :: a :: b :: c :: r => Some (Connect a b (dec_ch c 0), r)
+  | 9 :: a :: b :: c :: br :: r => Some (Connect a b (dec_ch c br), r)
   | 2 :: g :: r => Some (Kind g, r)
   | 3 :: g :: r => Some (NextGate g, r)
   | 4 :: g :: r => Some (PathEnd g, r)
@@ -366,7 +384,8 @@ Definition enc_out (o : out) : list N :=
   | ONext h => [3; enc_opt h]
   | OEnd h => [4; enc_opt h]
   | OIter None => [5; 0]
-  | OIter (Some p) => 5 :: 1 :: N.of_nat (length p) :: flat_map (fun c => [endpoint c; enc_opt (channel c)]) p
+  | OIter (Some p) => 5 :: 1 :: N.of_nat (length p) ::
+      flat_map (fun c => [endpoint c; enc_opt (option_map fst (channel c)); match channel c with Some ch => snd ch | None => 0 end]) p
   | OSent => [6]
   | ORule => [14]
   | OInvalid => [7]
